@@ -18,7 +18,8 @@ def run(ck, build):
     ck.rule("R-C08-PASS", "RELATIONAL, per path class of the keystream pass: same permutation call(s) in both directions (callee, rounds, key, input state); decrypt applied to encrypt's output-byte terms gives "
             "back the plaintext bytes bit for bit; the state after a whole block agrees; decrypt returns check_tag's verdict on the regenerated tag")
     ck.rule("R-C08-SMALL", "independent of the loop structure and of the mode's constants: each SIV function for EVERY message length 0..100 as straight path(s): length stored, exactly the output bytes "
-            "written, tag written / read right behind the message, load before store per offset, no read outside the input; decrypt returns check_tag's verdict and refuses inputs shorter than a tag")
+            "written, tag written / read right behind the message, load before store per offset, no read outside the input; decrypt returns check_tag's verdict and refuses inputs shorter than a tag. And RELATIONALLY for every length 0..80: with encrypt's output-byte terms substituted for decrypt's "
+            "input bytes, decrypt's keystream pass and authentication pass are encrypt's two passes on the same inputs, its output bytes are the plaintext bytes bit for bit, and the regenerated tag is the stored one")
     ck.rule("R-C08-LOCKSTEP", "cursors and remaining length advance in lock-step; residues 0..3 each handled once")
     ck.rule("R-C08-READS", "every word and tail of the keystream pass reads only the input bytes of its own segment (decrypt: plus the 8 tag bytes behind it): a read past the message can fault "
             "at the end of a mapping, and otherwise makes the result depend on memory that is no input")
@@ -29,9 +30,18 @@ def run(ck, build):
     if modecommon.nostate_rule(ck, build, "R-C08-NOSTATE", ("siv",), "the six SIV entry points"):
         return
     mod, fns, n = modecommon.run_mode(ck, build, ("siv",), RM, helper_fns=False, floor_obl=100)
+    # shape-independent and relational: the whole SIV round trip for every message length 0..80 as straight paths
+    from . import duallib
+    try:
+        for ks_ in ("128", "192", "256"):
+            duallib.check_pair_small_siv(ck, mod, ks_, "H/N0", {"SMALLRT": "R-C08-SMALL"})
+    except modecommon.Broken as e:
+        ck.note("small-length round-trip rule not decided: %s" % str(e)[:200])
+    snap = ck.snapshot()
     try:
         npair = modecommon.run_pairs(ck, mod, ("siv",), PAIR)
     except modecommon.Broken as e:
+        ck.rollback(snap)
         if not ck.violations:
             raise
         # obligations of the single-function rules were already refuted; that the pairwise comparison cannot follow the code does not take them back
